@@ -11,6 +11,10 @@ open Q1t Q1t.FromString Q1t.Spec.FromString
 /-- The `match` arms of `from_string` are the documented table. -/
 theorem gen_dispatch_documented : genTables.dispatch = documentedTable := by decide +kernel
 
+/-- The string literals of the arms are pairwise distinct: the `match` is a lookup table and the order of its arms (which
+the generator normalises by sorting) carries no meaning. -/
+theorem gen_keys_distinct : (genTables.dispatch.map (·.1)).Nodup := by decide +kernel
+
 /-- Every arm constructs a gate struct the model knows, with the right number of arguments, from `gate.args[i]`
 with `i` below the number of arguments the arm has asserted. -/
 theorem gen_tableWF : TableWF genTables := by decide +kernel
